@@ -48,14 +48,31 @@ def awaited_local_calls(body, names, blocks=None):
 
 
 def comparison_predicates(ctx, R):
-    """local async fns awaited in the runner whose result, when true, leads to Skipped"""
+    """local async fns awaited in the runner whose result, when true, leads to Skipped: [(fn name, Await, edge, Skipped block)].
+    The runner's own code is looked at first; code spliced in from helpers only if the runner itself has no such test."""
     out = []
-    for (bb, st) in R.aggregates("IncrementalRunResult", "Skipped"):
-        for e in R.edges:
-            if e.label and e.label[0] == "bool" and e.label[1] is True and bb in R.dominated_by_edge(e):
-                for o in edge_origin(R, e):
-                    if o[0] == "await" and o[1] in ctx.f.bodies:
-                        out.append((o[1], o[3], e, bb))
+    for own_only in (True, False):
+        for (bb, st) in R.aggregates("IncrementalRunResult", "Skipped"):
+            for e in R.edges:
+                if e.label and e.label[0] == "bool" and e.label[1] is True and bb in R.dominated_by_edge(e):
+                    if own_only and R.origin(e.src) != R.name:
+                        continue
+                    for o in edge_origin(R, e):
+                        if o[0] == "await" and o[1] in ctx.f.bodies:
+                            out.append((o[1], o[3], e, bb))
+        if out:
+            break
+    return out
+
+
+def edges_on_await(R, aw, adt_suffix, variant):
+    """switch edges of R taking `variant` of the value (or of a payload of the value) produced by await `aw`"""
+    out = []
+    for e in R.edges:
+        l = e.label
+        if l and l[0] == "variant" and path_ends(l[1] or "", adt_suffix) and l[2] == (variant,):
+            if origin_matches(edge_origin(R, e), lambda x: x[0] == "await" and x[3] is aw):
+                out.append(e)
     return out
 
 
@@ -64,7 +81,7 @@ def comparison_predicates(ctx, R):
 def skip_guard(ctx):
     R = runner(ctx)
     sites = list(R.aggregates("IncrementalRunResult", "Skipped"))
-    others = [(b, s) for (b, s) in ctx.r.bodies_constructing("IncrementalRunResult", "Skipped") if b is not R]
+    others = [(b, s) for (b, s) in ctx.r.bodies_constructing("IncrementalRunResult", "Skipped") if b.name != R.name and not ctx.r.contains(ctx.f.bodies[R.name], b)]
     for (b, ss) in others:
         for (bb, st) in ss:
             ctx.bad(f"{short(b.name)}", [site(b, bb)], "Skipped is constructed outside the incremental runner")
@@ -364,7 +381,7 @@ def hash_whole_file(ctx):
 def cmd_state_bodies(ctx):
     """per-command async blocks of the command-output state: bodies that await the command runner (reaches Command::output)"""
     f = ctx.f
-    runners = {ctx.r.fn_of(b).name for (b, bb, t) in ctx.r.spawn_sites() if t["callee"]["base"].endswith("Command::output")}
+    runners = {ctx.r.fn_of(ctx.r.outer_fn(b)).name if False else ctx.r.fn_of(b).name for (b, bb, t) in ctx.r.spawn_raw() if t["callee"]["base"].endswith("Command::output")}
     return runners
 
 
@@ -485,10 +502,15 @@ def save_on_success(ctx):
         ctx.bad(f"{short(R.name)}/save", [R.loc(min(Rc))], "a completed build never saves its state: the target would be rebuilt on every run")
         return
     for (cbb, t, a) in aw:
-        # the save must be reached on every path of (Completed & snapshot Ok(Some))
-        Rok = variant_region(R, "Result", "Ok", within=Rc)
-        Rsome = variant_region(R, "Option", "Some", within=Rok | Rc)
-        ok = cbb in Rsome and _dominated_entry_must_pass(R, Rsome, cbb)
+        # the save must be reached on every path on which the snapshot it records is Ok(Some): the snapshot is the awaited value the record derives from
+        rec_at = R.prov.operand_atoms(t["args"][1]) if len(t["args"]) > 1 else set()
+        snaps = [x for x in awaits(R) if x.callee in atom_callres(rec_at) and x.callee in ctx.f.bodies and x.producer and x.producer[0] in Rc and R.origin(x.into_bb) == R.name]
+        ok = False
+        for sn in snaps:
+            for e in edges_on_await(R, sn, "Option", "Some"):
+                Rs = R.dominated_by_edge(e)
+                if cbb in Rs and _must_pass(R, Rs, cbb):
+                    ok = True
         ctx.check(ok, f"{short(R.name)}/save", [site(R, cbb)], "the state save is skipped on some path of a completed build whose snapshot was computed")
 
 
@@ -601,12 +623,9 @@ def save_only_completed(ctx):
     Rc = variant_region(R, "BuildTerminationReport", "Completed")
     n = 0
     for sn in saves:
-        for (cn, bb) in f.cg.call_sites.get(sn, ()):
-            if bb is None:
-                continue
-            cb = f.bodies[cn]
+        for (cb, bb, ct) in ctx.r.callers_of(f.bodies[sn], prefer=[R]):
             n += 1
-            ctx.check(cb is R and bb in Rc, f"save/{short(cn)}", [site(cb, bb)], "the state is saved outside the Completed arm of the build report (a cancelled or failed build would be remembered as done)")
+            ctx.check(cb.name == R.name and bb in Rc, f"save/{short(cb.origin(bb))}", [site(cb, bb)], "the state is saved outside the Completed arm of the build report (a cancelled or failed build would be remembered as done)")
     ctx.need(n >= 1, "call site of the state save")
     sa = script_await(ctx, R)
     ok = False
